@@ -185,6 +185,38 @@ Theorem C01_candidates_distinct_positions : forall (T : Type) (N : Num T) (E : e
 Proof. intros T N E b outs cs H. exact (proj1 (candidates_nodup fe0 E b (b_rules b) 0 outs cs H)). Qed.
 Print Assumptions C01_candidates_distinct_positions.
 
+(* ---- 5b. what process leaves in the rules: at engine level, for every method.  For the rule at position ri of the
+   enabled block bi (`o0`: the contributions of the blocks before it, `sel`: the candidates the block triggers):
+   the configuration is unchanged; r_triggered <-> the rule was selected, is enabled and was passed a degree > 0; a
+   selected rule holds the degree passed to its consequent (under Proportional the normalised one) *)
+Theorem C01_triggered_flag_iff : forall (T : Type) (N : Num T), PosOrder N -> forall (e e' : engine T) bi ri b r,
+  process fe0 e = Ok e' ->
+  nth_error (e_blocks e) bi = Some b -> b_enabled b = true -> nth_error (b_rules b) ri = Some r ->
+  exists o0 sel b' r',
+    blocks_all_contribution fe0 e (map clear_fuzzy (e_outputs e)) (firstn bi (e_blocks e)) = Ok o0 /\
+    block_triggered fe0 e b o0 = Ok sel /\
+    get_rule e' bi ri = Some (b', r') /\
+    rule_deactivated r' = rule_deactivated r /\
+    (r_triggered r' = true <->
+     exists c, In c sel /\ cd_pos c = ri /\ cd_enabled c = true /\ gtb (cd_degree c) zero = true) /\
+    (forall c, In c sel -> cd_pos c = ri -> r_degree r' = cd_degree c).
+Proof. intros T N. exact (triggered_flag_iff_all fe0 fe0_ext). Qed.
+Print Assumptions C01_triggered_flag_iff.
+
+Theorem C01_triggered_flag_iff_F : forall sm tbl (e e' : engine float) bi ri b r,
+  @process float (NumF sm tbl) fe0 e = Ok e' ->
+  nth_error (e_blocks e) bi = Some b -> b_enabled b = true -> nth_error (b_rules b) ri = Some r ->
+  exists o0 sel b' r',
+    @blocks_all_contribution float (NumF sm tbl) fe0 e (map clear_fuzzy (e_outputs e)) (firstn bi (e_blocks e)) = Ok o0 /\
+    @block_triggered float (NumF sm tbl) fe0 e b o0 = Ok sel /\
+    get_rule e' bi ri = Some (b', r') /\
+    @rule_deactivated float (NumF sm tbl) r' = @rule_deactivated float (NumF sm tbl) r /\
+    (r_triggered r' = true <->
+     exists c, In c sel /\ cd_pos c = ri /\ cd_enabled c = true /\ @gtb float (NumF sm tbl) (cd_degree c) (@zero float (NumF sm tbl)) = true) /\
+    (forall c, In c sel -> cd_pos c = ri -> r_degree r' = cd_degree c).
+Proof. intros sm tbl. exact (triggered_flag_iff_all fe0 fe0_ext (NumF_PosOrder sm tbl)). Qed.
+Print Assumptions C01_triggered_flag_iff_F.
+
 (* ---- 6. non-vacuity, on binary64 by computation.
    input x in [0,1] with low = Ramp(1,0), high = Ramp(0,1); output y in [0,1] with small = Triangle(0,.25,.5),
    big = Triangle(.5,.75,1), Maximum aggregation, Centroid(10).
